@@ -10,7 +10,9 @@ from vlib.runner import fail, hyp_run
 LEVEL = "exploration"
 RULE = ("Hypothesis-generated (dimension 1..5, box, any objective family, r in [1.01,16], eps from the "
         "float-resolution floor up to 2.0 incl. eps equal to a reachable Hoelder length, itersLimit in "
-        "{1,2,3,4,5,...,2000}); one Solve() per case; oracle = history-based: evaluation count, reported "
+        "{1,2,3,4,5,...,2000}); one Solve() per case, in a quarter of the cases preceded by DoGlobalIteration "
+        "batches that spend part or all of the budget and followed by up to two further Solve() calls (which must "
+        "not evaluate anything); oracle = history-based: evaluation count, reported "
         "trial count, budget, 'never earlier / never later' from the Hoelder length of each subdivided "
         "interval (independent model), reported accuracy. Non-trivial: a run of >=3 trials that stopped on "
         "accuracy, or a run that stopped on the budget with itersLimit>=3, or an edge class (itersLimit in "
